@@ -194,7 +194,7 @@ pub fn generate(prop: &str, _tier: Tier, rng: &mut Rng, _idx: u64) -> Case {
             }
             finish_case(g, "conformant-ops+quota-probe")
         }
-        "C09" | "C08" if _idx % 8 == 5 => crate::profiles::qos2_resume(rng),
+        "C09" | "C08" | "C07" if _idx % 8 == 5 => crate::profiles::qos2_resume(rng),
         "C01" if _idx % 16 == 9 => {
             // what a resumed session re-sends is also "written by the client": judged for
             // well-formedness only
@@ -326,7 +326,14 @@ pub fn judge(prop: &str, sc: &Scenario, aux: Option<&Scenario>) -> Judged {
             }
         }
         "C07" => {
-            viols.extend(oracle::c07(&a));
+            let mut found = oracle::c07(&a);
+            if (1..a.conns.len()).any(|c| oracle::session_carried(&a, c) != Some(true)) {
+                // a session that expired while offline takes its subscriptions with it: that the
+                // old streams end at the reset is not judged here (C07 does not speak of
+                // reconnections); what the NEW subscription receives is
+                found.retain(|x| !x.class.ends_with("/early-end"));
+            }
+            viols.extend(found);
             let live_streams = a.streams.values().filter(|s| s.opened.is_some()).count();
             let mut key = Vec::new();
             for (s, sv) in &a.streams {
